@@ -22,7 +22,7 @@
   "C14"
  ],
  "level": "U/k",
- "tier": "wip",
+ "tier": "quick",
  "harness": "h_read_inode2",
  "sources": [
   "lib/ext2fs/io_manager.c"
@@ -67,7 +67,7 @@
   "C14"
  ],
  "level": "U/k",
- "tier": "wip",
+ "tier": "thorough",
  "harness": "h_read_inode2",
  "sources": [
   "lib/ext2fs/io_manager.c"
@@ -112,7 +112,7 @@
   "C14"
  ],
  "level": "U/k",
- "tier": "wip",
+ "tier": "thorough",
  "harness": "h_read_inode2",
  "sources": [
   "lib/ext2fs/io_manager.c"
@@ -157,7 +157,7 @@
   "C14"
  ],
  "level": "U/k",
- "tier": "wip",
+ "tier": "quick",
  "harness": "h_read_inode2",
  "sources": [
   "lib/ext2fs/io_manager.c"
